@@ -676,6 +676,35 @@ def stream_protect(ck, scratch):
     finally:
         os.chdir(cwd)
         scratch.drop(root)
+    # an EXISTING target spelled through a folder that does not exist (yet) and '..': <root>/new/../out.fk is <root>/out.fk
+    # for every save function (pathlib resolves '..' textually); the call must refuse and leave the file alone — absolute
+    # spelling, relative spelling from another working directory, file and non-empty folder targets
+    for kind, init_extra, target in (("file", [(("out.fk",), "f", "old")], ("out.fk",)),
+                                     ("folder", [(("outd",), "d", ""), (("outd", "keep.txt"), "f", "old")], ("outd",))):
+        for relative in (False, True):
+            root = scratch.fresh()
+            cwd = os.getcwd()
+            try:
+                build(root, BYSTANDERS + [(("w",), "d", "")] + init_extra)
+                before = snapshot(root)
+                if relative:
+                    os.chdir(root / "w")
+                    spelled = "/".join(("..", "new", "deeper", "..", "..") + target)
+                else:
+                    spelled = str(root.joinpath("new", "..", *target))
+                err = None
+                try:
+                    protect_from_overwrite(spelled)
+                except Exception as e:  # noqa: BLE001
+                    err = e
+                case = {"kind": "protect-dotdot-through-missing-folder", "target_kind": kind, "relative": relative,
+                        "path": spelled if relative else "<root>/new/../" + "/".join(target), "observed": exc_name(err)}
+                oracle_save(ck, case, before, snapshot(root), err, 0, target, False)
+                ck.case(("protect-dotdot", kind, relative), True)
+                ck.count("a:stream:protect-dotdot-through-missing-folder")
+            finally:
+                os.chdir(cwd)
+                scratch.drop(root)
     batch.diff(ck, "protect-model-vs-impl")
 
 
